@@ -19,7 +19,9 @@ def run(ctx):
     # not-MIDI files: every byte of the 'MThd' and 'MTrk' tags replaced, and impossible format numbers
     edits = [[pos, val] for pos in (0, 1, 2, 3, 14, 15, 16, 17) for val in (0, 0x20, 0x4D, 0x54, 0x7A, 0xFF)] + \
             [[9, v] for v in (3, 4, 9, 0x7F, 0xFF)] + [[8, v] for v in (1, 0x80)]
-    edits = [e for e in edits]
+    # whole tags: the other valid chunk tag in the wrong place, other four-letter tags, wrong case
+    tags = [[77, 84, 114, 107], [77, 84, 104, 100], [82, 73, 70, 70], [109, 116, 104, 100], [109, 116, 114, 107], [77, 84, 104, 68], [0, 0, 0, 0]]
+    edits += [[pos, t] for pos in (0, 14) for t in tags]
     cases.append({"kind": "corrupt", "edits": edits})
     ctx.exhaustive = False
     ctx.bounds = {"quick": "the C16 programs (%d systematic + 300 simulated) + 300 simulated round-trippable ones, restricted by the specification to round-trippable ones (whole tick counts, velocity 1..127, no tempo change); bpm 4..1000 all values; VLQ as in C16 through the real reader; %d corrupted headers / track tags / format numbers" % (len(sysp), len(edits)),
